@@ -8,6 +8,12 @@
 //	                                x<c>          the peer closes connection c
 //	                                h             one housekeeping pass (options.WithPeriodicRunner hands it to the harness)
 //	                                s             Server.Stop(); must end Serve
+//	                                f             the listener's Accept fails ONCE with a transient error (EMFILE / ECONNABORTED:
+//	                                              the listener is not closed, the server's context is alive)
+//	                                f*<n>         a series of n such failures, one Accept call after the other
+//	                                              result 1 = after every failure the server called Accept again within 2 s,
+//	                                              0:<k>:<ms> = after the k-th failed Accept of this server's LIFE it did not (no peer
+//	                                              can be accepted meanwhile); ms = how long the harness waited
 //	-> streams <ev>=<result>/<live connections> ...   result: o,q 1|0 (served), x -, h the connections the pass visited,
 //	                                                  s 1|0 (Serve returned)
 package c10
@@ -17,10 +23,13 @@ import (
 	"context"
 	"fmt"
 	"net"
+	"os"
 	"sort"
 	"strconv"
 	"strings"
 	"sync"
+	"sync/atomic"
+	"syscall"
 	"time"
 
 	coapdtls "github.com/plgd-dev/go-coap/v3/dtls"
@@ -29,6 +38,7 @@ import (
 	"github.com/plgd-dev/go-coap/v3/message/codes"
 	"github.com/plgd-dev/go-coap/v3/message/pool"
 	"github.com/plgd-dev/go-coap/v3/mux"
+	coapNet "github.com/plgd-dev/go-coap/v3/net"
 	"github.com/plgd-dev/go-coap/v3/options"
 	"github.com/plgd-dev/go-coap/v3/tcp"
 	tcpclient "github.com/plgd-dev/go-coap/v3/tcp/client"
@@ -38,6 +48,55 @@ import (
 	udpcoder "github.com/plgd-dev/go-coap/v3/udp/coder"
 	"verifharness/internal/mem"
 )
+
+// failListener: the in-memory listener of the stream histories (connections pushed with Push are accepted in order) whose
+// Accept can be made to fail transiently.  calls counts the Accept calls of the server.
+type failListener struct {
+	ch     chan net.Conn
+	fail   chan failReq
+	closed chan struct{}
+	once   sync.Once
+	calls  atomic.Int64
+}
+
+// failReq: one injected failure; the listener answers on at with the number of the Accept call that returns it
+type failReq struct {
+	err error
+	at  chan int64
+}
+
+func newFailListener() *failListener {
+	return &failListener{ch: make(chan net.Conn, 16), fail: make(chan failReq), closed: make(chan struct{})}
+}
+
+func (l *failListener) Push(c net.Conn) { l.ch <- c }
+
+func (l *failListener) AcceptWithContext(ctx context.Context) (net.Conn, error) {
+	l.calls.Add(1)
+	select {
+	case c := <-l.ch:
+		return c, nil
+	case r := <-l.fail:
+		r.at <- l.calls.Load() // (Accept is called by the server's one accept loop only)
+		return nil, r.err
+	case <-ctx.Done():
+		return nil, ctx.Err()
+	case <-l.closed:
+		return nil, coapNet.ErrListenerIsClosed
+	}
+}
+
+func (l *failListener) Close() error {
+	l.once.Do(func() { close(l.closed) })
+	return nil
+}
+
+// transient Accept errors as the operating system reports them (net.OpError around an errno)
+var acceptErrs = []error{
+	&net.OpError{Op: "accept", Net: "tcp", Err: os.NewSyscallError("accept4", syscall.EMFILE)},
+	&net.OpError{Op: "accept", Net: "tcp", Err: os.NewSyscallError("accept4", syscall.ECONNABORTED)},
+	&net.OpError{Op: "accept", Net: "tcp", Err: os.NewSyscallError("accept4", syscall.ENFILE)},
+}
 
 type sAddr string
 
@@ -153,7 +212,8 @@ func streams(transport string, evs []string) (out string) {
 	passCh := make(chan func(time.Time) bool, 1)
 	newConn := make(chan srvConn, 16)
 	runner := options.WithPeriodicRunner(func(f func(now time.Time) bool) { passCh <- f })
-	l := mem.NewListener()
+	l := newFailListener()
+	failures := 0 // failed Accepts of this server's life
 	served := make(chan any, 1)
 	var stop func()
 	if stream {
@@ -183,6 +243,7 @@ func streams(transport string, evs []string) (out string) {
 	conns := map[int]*streamConn{}
 	var order []int
 	stopped := false
+	stalled := false
 	serveEnded := false
 	defer func() {
 		if !stopped {
@@ -260,6 +321,10 @@ func streams(transport string, evs []string) (out string) {
 	var res []string
 	for _, ev := range evs {
 		var o string
+		if stalled {
+			res = append(res, ev+"=-/-")
+			continue
+		}
 		switch {
 		case stopped:
 			o = "-"
@@ -340,6 +405,36 @@ func streams(transport string, evs []string) (out string) {
 				o = strings.Join(s, ",")
 				if o == "" {
 					o = "-"
+				}
+			}
+		case ev == "f" || strings.HasPrefix(ev, "f*"):
+			k := 1
+			if ev != "f" {
+				k, _ = strconv.Atoi(ev[2:])
+				if k < 1 || k > 64 {
+					return "bad-op"
+				}
+			}
+			o = "1"
+			for i := 0; i < k && o == "1"; i++ {
+				t0 := time.Now()
+				at := make(chan int64, 1)
+				var failedCall int64
+				select {
+				case l.fail <- failReq{acceptErrs[failures%len(acceptErrs)], at}:
+					failures++
+					failedCall = <-at
+				case <-time.After(2 * time.Second):
+					o = fmt.Sprintf("0:%d:%d", failures+1, time.Since(t0).Milliseconds())
+					stalled = true
+					continue
+				}
+				for l.calls.Load() <= failedCall && time.Since(t0) < 2*time.Second {
+					time.Sleep(200 * time.Microsecond)
+				}
+				if l.calls.Load() <= failedCall {
+					o = fmt.Sprintf("0:%d:%d", failures, time.Since(t0).Milliseconds())
+					stalled = true // the rest of the history is not run: the accept loop is not available
 				}
 			}
 		case ev == "s":
